@@ -36,6 +36,7 @@ mod h_lean;
 mod h_fmt;
 mod h_layouts;
 mod h_mapper;
+mod h_tables;
 
 fn main() {
   let args: Vec<String> = std::env::args().collect();
@@ -47,6 +48,7 @@ fn main() {
   let code = match args[1].as_str() {
     "mapper" => h_mapper::run(&opts),
     "replay-mapper" => h_mapper::replay(&opts),
+    "gen-tables" => h_tables::run(&opts),
     other => {
       eprintln!("unknown suite {}", other);
       2
